@@ -4,6 +4,8 @@ package main
 
 import (
 	"container/heap"
+	"go/ast"
+	"os"
 	"math/big"
 	"fmt"
 	"go/token"
@@ -142,6 +144,7 @@ type Frame struct {
 	isTop    bool
 	oldScope *Scope
 	exits    []Edge // edges leaving `restrict` (ignored)
+	defs     map[ast.Expr]ast.Expr
 }
 
 func (ex *Exec) newCell(name string, sort *Sort, typ types.Type) *Cell {
@@ -212,8 +215,27 @@ func (f *Frame) analyse() {
 		hs = append(hs, h)
 	}
 	sort.Slice(hs, func(i, j int) bool { return hs[i].Index < hs[j].Index })
-	// ordinal in source order of the header position
-	sort.SliceStable(hs, func(i, j int) bool { return f.rpo[hs[i]] < f.rpo[hs[j]] })
+	// ordinal in source order: by the position of the loop statement (smallest position in the header block)
+	posOf := func(h *ssa.BasicBlock) token.Pos {
+		// the smallest source position of any instruction of the loop (outer loops come before their inner loops,
+		// siblings in textual order)
+		best := token.NoPos
+		for b := range f.loops[h].blocks {
+			for _, ins := range b.Instrs {
+				if p := ins.Pos(); p.IsValid() && (best == token.NoPos || p < best) {
+					best = p
+				}
+			}
+		}
+		return best
+	}
+	sort.SliceStable(hs, func(i, j int) bool {
+		pi, pj := posOf(hs[i]), posOf(hs[j])
+		if pi != pj && pi.IsValid() && pj.IsValid() {
+			return pi < pj
+		}
+		return f.rpo[hs[i]] < f.rpo[hs[j]]
+	})
 	nameCount := map[string]int{}
 	for i, h := range hs {
 		l := f.loops[h]
@@ -254,6 +276,9 @@ func (f *Frame) analyse() {
 					break
 				}
 			}
+		}
+		if os.Getenv("GVC_DEBUG") != "" && f.fc != nil {
+			fmt.Fprintf(os.Stderr, "loop #%d header block %d key %q spec=%v names=%v\n", i, h.Index, l.key, l.spec != nil, sortedKeys(f.loopOwnNames(l)))
 		}
 		if l.spec != nil && l.spec.Unroll > 0 {
 			l.unroll = l.spec.Unroll
@@ -419,6 +444,33 @@ func (ex *Exec) mergeVals(conds []Term, vals []Val, what string) Val {
 		}
 		return out
 	}
+	if first.IsPtr || (len(vals) > 0 && anyPtr(vals)) {
+		// nil on some paths, one and the same location on the others: a possibly-nil static pointer
+		var loc *LV
+		ok := true
+		var nilConds []Term
+		for i, v := range vals {
+			if !v.IsPtr {
+				ok = false
+				break
+			}
+			if v.P == nil {
+				nilConds = append(nilConds, conds[i])
+				continue
+			}
+			if v.NilIf.Sort != nil {
+				nilConds = append(nilConds, And(conds[i], v.NilIf))
+			}
+			if loc == nil {
+				loc = v.P
+			} else if !sameLV(loc, v.P) {
+				ok = false
+			}
+		}
+		if ok && loc != nil && len(nilConds) > 0 {
+			return Val{IsPtr: true, P: loc, NilIf: ex.vc.Define("mpn_"+what, Or(nilConds...))}
+		}
+	}
 	if first.IsPtr || first.Fn != nil || first.Iter != nil {
 		// static pointers must agree; allow nil vs non-nil only through boxing (not supported here)
 		if first.IsPtr && first.P != nil {
@@ -515,6 +567,15 @@ func (ex *Exec) mergeVals(conds []Term, vals []Val, what string) Val {
 		out.Origin = first.Origin
 	}
 	return out
+}
+
+func anyPtr(vals []Val) bool {
+	for _, v := range vals {
+		if v.IsPtr {
+			return true
+		}
+	}
+	return false
 }
 
 // curVal: the data term of a value
@@ -1203,8 +1264,8 @@ func (ex *Exec) rangeFacts(t Term, typ types.Type, depth int) []Term {
 	return out
 }
 
-// slice lengths are assumed to stay below 2^62 (an int64 index cannot overflow by adding one)
-var maxSliceLen = new(big.Int).Lsh(big.NewInt(1), 62)
+// slice lengths and map sizes are assumed to stay below 2^60 (doubling a length, or adding a few, cannot overflow)
+var maxSliceLen = new(big.Int).Lsh(big.NewInt(1), 60)
 
 func hasNestedQuantifier(ts []Term) bool {
 	for _, t := range ts {
